@@ -41,6 +41,11 @@ func checks() []check {
 			{Name: "fixed-ip-and-leak-gc", Pkg: "pkg/controller/pod-eni", Run: "^TestVerifC11$", Sets: []string{"weave"}, Weave: []string{"pkg/controller/pod", "pkg/controller/pod-eni", "pkg/vswitch"}, ShardsQ: 16, ShardsT: 16},
 			{Name: "leak-collector-populations", Pkg: "pkg/controller/pod-eni", Run: "^TestVerifC11Leak$", Sets: []string{"weave"}, Weave: []string{"pkg/controller/pod", "pkg/controller/pod-eni", "pkg/vswitch"}, ShardsQ: 8, ShardsT: 16},
 		}},
+		{ID: "C12", Level: "model_checking", Parts: []part{
+			{Name: "podeni-to-netconf", Pkg: "pkg/eni", Run: "^TestVerifC12Remote$"},
+			{Name: "default-route-and-primary", Pkg: "daemon", Run: "^TestVerifC12Defaulting$"},
+			{Name: "plugin-parse", Pkg: "plugin/terway", Run: "^TestVerifC12Plugin$"},
+		}},
 		{ID: "C14", Level: "model_checking", Parts: []part{
 			{Name: "u32v4", Pkg: "pkg/tc", Run: "^TestVerifC14U32v4$"},
 			{Name: "u32v6", Pkg: "pkg/tc", Run: "^TestVerifC14U32v6$"},
